@@ -281,3 +281,186 @@ class real_fill_attr:
     def on_raise(old, s, a, exc):
         yield "canvas-error-only-when-finalized", not is_none(old._widget_info)
         yield "finalized-canvas-unchanged", both(_entry_list_untouched(), _coords_same(old, s))
+
+
+# ================================================================================================================
+# AttrMap: the maps it is given.  set_attr_map / set_focus_map accept a dict whose every entry is hashable (keys of a
+# dict always are; a VALUE may not be -- it would later be used as a key when maps are composed in
+# CompositeCanvas.fill_attr_apply) and store THAT dict object; __init__ turns a single attribute into {None: attr}
+# and copies a given Mapping.
+from collections.abc import Mapping as _Mapping  # noqa: E402
+
+import urwid as _urwid  # noqa: E402
+from urwid.widget import attr_map as _am  # noqa: E402
+
+from contracts.proto_widget import *  # noqa: E402,F401,F403  (Widget protocol, Widget._invalidate, Widget.__init__)
+
+AM = "urwid/widget/attr_map.py:"
+AMOBJ = Obj(_am.AttrMap, dict(_original_widget=Opaque("Widget"), _attr_map=AMAP, _focus_map=Opt(AMAP)))
+
+
+def _attr_isinstance(self, ip, st, obj, cls):
+    from collections.abc import Hashable
+
+    if cls is Hashable:
+        return hashable(obj)
+    if cls is _Mapping:
+        # a Mapping argument of AttrMap.__init__ is modelled by the dict alternative of its parameter shape; the
+        # individuals of kind Attr are the other objects
+        return False
+    if cls is object:
+        return True
+    raise Unsupported(f"isinstance(<attribute>, {getattr(cls, '__name__', cls)})")
+
+
+type(PROTOCOLS["Attr"]).isinstance = _attr_isinstance
+
+
+def all_entries_hashable_at(m, A):
+    """Instance at the attribute A of: every entry of m has a hashable key and a hashable value."""
+    mv = mapval(m)
+    return implies(mv.has(A), both(hashable(A), hashable(mv.val(A))))
+
+
+def _keys_hashable(m, A):
+    """Dict keys are hashable (CPython refuses to store an unhashable key): the instance at A."""
+    mv = mapval(m)
+    cur().assume(implies(mv.has(A), hashable(A)))
+
+
+def _same_obj(x, y):
+    """Field value x (now) and y (in the entry snapshot) are the same thing: snapshots copy a dict object, so dicts
+    are compared by the value they hold."""
+    if isinstance(x, SFMap) and isinstance(y, SFMap):
+        return x.v is y.v
+    if isinstance(x, DRef) and isinstance(y, DRef):
+        return x.d.keys() == y.d.keys() and all(x.d[k] is y.d[k] for k in x.d)
+    return x is y
+
+
+def _validation_inv(name):
+    def inv(v):
+        A = arb_attr()
+        m = getattr(v, name)
+        if isinstance(m, SOpt):
+            m = m.val
+        mv = mapval(m)
+        _keys_hashable(m, A)
+        yield "entries-seen-so-far-are-hashable", implies(both(mv.has(A), mv.idx(A) < v.i_), hashable(mv.val(A)))
+        yield "nothing-stored-or-invalidated-yet", both(count_ev(v.self.trace, "_invalidate") == 0, _same_obj(v.self.fields[f"_{name}"], v.old.self.fields[f"_{name}"]))
+
+    return inv
+
+
+def _witness(m, exc):
+    """An entry that made the validation fail: the loop element at the raise (verification of the body), a fresh
+    witness (use of the contract at a call site)."""
+    st = cur()
+    mv = mapval(m)
+    if exc.args == ("<from callee contract>",):
+        W = ATTRV.fresh(st, "unhashable_entry")
+        st.ghost["unhashable_witness"] = W  # (the caller's exceptional postcondition may name it)
+        return both(mv.has(W), neg(hashable(mv.val(W))))
+    k, v = st.ghost["loop_elem"]
+    return both(mv.has(k), aeq(mv.val(k), v), neg(both(hashable(k), hashable(v))))
+
+
+def _setter(field, param, optional):
+    class C:
+        self_shape = AMOBJ
+        params = {param: Opt(AMAP) if optional else AMAP}
+        raises = (_am.AttrMapError,)
+        modifies = (field,)
+        loops = {0: Loop(invariant=_validation_inv(param))}
+
+        def effects(old, s, a, result):
+            s.fields[field] = getattr(a, param)  # the dict object itself is stored (no copy)
+            s.trace.append(("_invalidate",))
+
+        def ensures(old, s, a, result):
+            A = arb_attr()
+            m = getattr(a, param)
+            yield "returns-none", result is None
+            if optional and is_none(m):
+                yield "none-is-stored-as-none", s.fields[field] is None
+            else:
+                m = val(m)
+                _keys_hashable(m, A)
+                yield "every-entry-is-hashable", all_entries_hashable_at(m, A)
+                yield "the-given-dict-is-stored", s.fields[field] is m
+            yield "invalidated-once-after-the-store", count_ev(s.trace, "_invalidate") == 1
+            yield "other-fields-untouched", both(*[_same_obj(s.fields[f], old.fields[f]) for f in ("_original_widget", "_attr_map", "_focus_map") if f != field and f in old.fields])
+
+        def on_raise(old, s, a, exc):
+            m = getattr(a, param)
+            yield "only-for-an-entry-that-is-not-hashable", (not (optional and is_none(m))) and _witness(val(m), exc)
+            yield "nothing-stored-nothing-invalidated", both(_same_obj(s.fields.get(field), old.fields.get(field)), count_ev(s.trace, "_invalidate") == 0)
+
+        def on_raise_callee(old, s, a, exc):
+            # at a call site the receiver was havocked before the exceptional clauses are assumed: put the untouched
+            # field back (the clause `nothing-stored-nothing-invalidated`, proved against the body), then the witness
+            if field in old.fields:
+                s.fields[field] = old.fields[field]
+            else:
+                s.fields.pop(field, None)
+            m = getattr(a, param)
+            yield "only-for-an-entry-that-is-not-hashable", (not (optional and is_none(m))) and _witness(val(m), exc)
+
+    return C
+
+
+set_attr_map = contract(AM + "AttrMap.set_attr_map", property="C17", replayable=False)(_setter("_attr_map", "attr_map", False))
+set_focus_map = contract(AM + "AttrMap.set_focus_map", property="C17", replayable=False)(_setter("_focus_map", "focus_map", True))
+
+
+def _same_entries_at(m_new, m_given, A):
+    if not isinstance(m_new, (SFMap, DRef)):
+        return False
+    mn, mg = mapval(m_new), mapval(m_given)
+    return both(mk_bool(V._zb(mn.has(A)) == V._zb(mg.has(A))), implies(mg.has(A), aeq(mn.val(A), mg.val(A))))
+
+
+def _single_entry_at(m_new, attr, A):
+    if not isinstance(m_new, (SFMap, DRef)) or isinstance(attr, (SFMap, DRef)):
+        return False
+    if isinstance(m_new, DRef) and any(isinstance(x, (SFMap, DRef)) for x in m_new.d.values()):
+        return False
+    mn = mapval(m_new)
+    return both(mk_bool(V._zb(mn.has(A)) == V._zb(opt_isnone(A) if isinstance(opt_isnone(A), V.SBool) else z3.BoolVal(bool(opt_isnone(A))))), aeq(mn.val(None), attr), Q.seq_len(()) == 0)
+
+
+@contract(AM + "AttrMap.__init__", property="C17", inline=("WidgetDecoration.__init__",), replayable=False)
+class attrmap_init:
+    """`attr_map` / `focus_map`: a Mapping (modelled: a dict with symbolic keys) or a single attribute (None included;
+    for focus_map None means "no focus map")."""
+
+    self_shape = Obj(_am.AttrMap, {})
+    params = dict(w=Opaque("Widget"), attr_map=Union(AMAP, ATTRV), focus_map=Union(AMAP, ATTRV))
+    raises = (_am.AttrMapError,)
+
+    def ensures(old, s, a, result):
+        A = arb_attr()
+        yield "wraps-the-widget", eq(s._original_widget, a.w)
+        if isinstance(a.attr_map, SFMap):
+            yield "a-given-mapping-is-copied", both(s._attr_map is not a.attr_map, _same_entries_at(s._attr_map, a.attr_map, A))
+        else:
+            yield "a-single-attribute-becomes-the-map-from-none", _single_entry_at(s._attr_map, a.attr_map, A)
+        if isinstance(a.focus_map, SFMap):
+            yield "a-given-focus-mapping-is-copied", both(s._focus_map is not a.focus_map, _same_entries_at(s._focus_map, a.focus_map, A))
+        elif is_none(a.focus_map):
+            yield "no-focus-map", s._focus_map is None
+        else:
+            yield "a-single-focus-attribute-becomes-the-map-from-none", _single_entry_at(s._focus_map, a.focus_map, A)
+        yield "arguments-not-mutated", both(*[getattr(a, k).v is getattr(a.old, k).v for k in ("attr_map", "focus_map") if isinstance(getattr(a, k), SFMap)])
+
+    def on_raise(old, s, a, exc):
+        W = cur().ghost.get("unhashable_witness")
+        yield "raised-by-the-validation-of-a-map", W is not None
+        if W is not None:
+            culprits = []
+            for arg in (a.attr_map, a.focus_map):
+                if isinstance(arg, SFMap):
+                    culprits.append(both(arg.v.has(W), neg(hashable(arg.v.val(W)))))
+                else:
+                    culprits.append(neg(hashable(arg)))
+            yield "only-when-a-given-attribute-or-map-value-is-not-hashable", either(*culprits)
